@@ -4,12 +4,13 @@
 # VERIF_REPO pointing at it (Verus units re-extract from there; Kani rebuilds the crates of that path).
 set -u
 patch=$(realpath "$1"); pid=$2; tier=${3:-quick}
-wt=/tmp/wt-seed-$$
+wt=/tmp/wt-seed   # fixed path: its Kani build directory (engine/kani.py target_dir) is reused between trials; one trial at a time
+[ -e "$wt" ] && { echo "another trial is running ($wt exists)"; exit 9; }
 git -C /repo worktree add -q --detach "$wt" HEAD || exit 9
 ( cd "$wt" && git apply "$patch" ) || { echo "patch does not apply"; git -C /repo worktree remove --force "$wt"; exit 9; }
 cd /verif && VERIF_REPO="$wt" timeout 3000 ./check "$pid" --tier "$tier"; rc=$?
 git -C /repo worktree remove --force "$wt"
-# the scratch path had its own Kani build directory (engine/kani.py target_dir): remove it
-rm -rf /verif/.cache/kani-target-*
+# the scratch path has its own Kani build directory (engine/kani.py target_dir); KEEP_WT_TARGET=1 keeps it for the next trial
+[ "${KEEP_WT_TARGET:-0}" = 1 ] || rm -rf /verif/.cache/kani-target-*
 echo "rc=$rc"
 exit $rc
